@@ -210,81 +210,264 @@ def transplant(ses, rep, fs):
                     if r == "sat":
                         flagged.append((oid_, f"{f.name}: the {side.replace('_', ' ')} of the removed token {T.label[-30:]} is not carried into the result",
                                         "transplant", {"function": f.name, "token": T.label[-30:], "side": side}))
-            # R: FormatTriviaType::Replace on one side of a token that comes from the input discards that side's trivia: the old trivia
-            # must have been read into something that reaches the result, or a comment test on it is false on this path
-            for ci, t in enumerate(hv):
-                last = t[1].split("::")[-1]
-                if last not in ("update_leading_trivia", "update_trailing_trivia", "update_trivia"):
-                    continue
-                snap = t[4] if len(t) > 4 else t[2]
-                X = deref_val(ex, o.state, snap[0])
-                if not isinstance(X, Lazy) or not TOKEN_TY.search(X.ty.strip()) or not isinstance(t[3], Lazy) or t[3].oid not in full:
-                    continue
-                X = canonical(ex, byoid, X)
-                if node.oid not in P.of(X):
-                    continue
-                sides = [("leading_trivia", snap[1]), ("trailing_trivia", snap[2])] if last == "update_trivia" and len(snap) > 2 else \
-                        [("leading_trivia" if "leading" in last else "trailing_trivia", snap[1])] if len(snap) > 1 else []
-                # the token and the tokens it is a formatted copy of; the containers it was taken from
-                equiv, conts, cur, steps = {X.oid}, set(), X, 0
-                while cur is not None and steps < 12:
-                    steps += 1
-                    root = cur.oid
-                    while root in ex.parent:
-                        root = ex.parent[root][0]
-                        if root != node.oid and root in byoid:
-                            conts.add(root)
-                    if root == node.oid or root not in ex.havoc_calls:
-                        break
-                    nm, a = ex.havoc_calls[root]
-                    srcs = [x_ for x_ in (deref_val(ex, o.state, y_) for y_ in ex.havoc_snap.get(root, a)) if isinstance(x_, Lazy)
-                            and not re.search(r"(Context|Shape|FormatTriviaType|Vec<.*>)$", x_.ty.strip())]
-                    if not srcs:
-                        break
-                    c0 = srcs[0]
-                    if c0.oid == node.oid:
-                        break
-                    if TOKEN_TY.search(c0.ty.strip()) and root == cur.oid:
-                        equiv.add(canonical(ex, byoid, c0).oid)      # cur = f(ctx, c0, ..): a formatted copy of token c0
-                    else:
-                        conts.add(c0.oid)
-                    cur = c0
-                for side, payload in sides:
-                    pv = deref_val(ex, o.state, payload)
-                    if not (isinstance(pv, Agg) and pv.variant == "Replace"):
-                        continue
-                    n_tok += 1
-                    oid_ = f"replace/{fs}/{f.name}/path{pi}/call{ci}-{X.label[-30:]}/{side}"
-                    reads = [r_ for e_ in equiv for r_ in triv.get(e_, {}).get("all:" + side, [])]
-                    if any(r_.oid in full for r_ in reads):
-                        rep.add(oid_, "unsat", "the replaced trivia is read and carried into the result", nontrivial=False)
-                        continue
-                    guards = []
-                    for u in hv:
-                        l2 = u[1].split("::")[-1]
-                        if not isinstance(u[3], Sym) or not z3.is_bool(u[3].t):
-                            continue
-                        sn2 = u[4] if len(u) > 4 else u[2]
-                        if l2 in GUARDS and side in GUARDS[l2]:
-                            a0 = deref_val(ex, o.state, sn2[0])
-                            if isinstance(a0, Lazy):
-                                a0c = canonical(ex, byoid, a0)
-                                if a0c.oid in equiv or a0c.oid in conts or a0.oid in conts or (equiv & P.of(a0)):
-                                    guards.append(u[3].t)
-                        elif reads and l2 in ("any", "all", "is_some", "is_none", "is_empty") and any(r_.oid in P.of(x) for r_ in reads for x in sn2):
-                            guards.append(u[3].t if l2 in ("any", "is_some") else z3.Not(u[3].t))
-                    bad = z3.And(*guards) if guards else z3.BoolVal(True)
-                    if guards and not ses.reachable(list(o.pc) + [bad]):
-                        rep.add(oid_, "unsat", "the trivia is replaced only on paths where its comment test is false")
-                        continue
-                    r, m = ses.obligation(oid_, list(o.pc), bad, "trivia that is replaced was read into the result or holds no comment")
-                    if r == "sat":
-                        flagged.append((oid_, f"{f.name}: the {side.replace('_', ' ')} of {X.label[-30:]} is replaced without its comments being carried over",
-                                        "replace", {"function": f.name, "token": X.label[-30:], "side": side}))
+            fl_, n_ = replace_obligations(ses, rep, ex, o, P, hv, byoid, triv, full, {node.oid}, f, pi, fs)
+            flagged += fl_
+            n_tok += n_
     rep.bounds[f"transplant_functions_{fs}"] = n_fn
     rep.bounds[f"removed_tokens_{fs}"] = n_tok
     if n_fn < 60 and not getattr(c02, "_debug_single", False):
         raise Inconclusive(f"transplant: only {n_fn} formatter functions analysed for {fs}")
+    return flagged
+
+
+def replace_obligations(ses, rep, ex, o, P, hv, byoid, triv, full, input_oids, f, pi, fs):
+    """R (see transplant): returns (flagged, number of replaced sides looked at)"""
+    flagged, n_tok = [], 0
+    # R: FormatTriviaType::Replace on one side of a token that comes from the input discards that side's trivia: the old trivia
+    # must have been read into something that reaches the result, or a comment test on it is false on this path
+    for ci, t in enumerate(hv):
+        last = t[1].split("::")[-1]
+        if last not in ("update_leading_trivia", "update_trailing_trivia", "update_trivia"):
+            continue
+        snap = t[4] if len(t) > 4 else t[2]
+        X = deref_val(ex, o.state, snap[0])
+        if not isinstance(X, Lazy) or not TOKEN_TY.search(X.ty.strip()) or not isinstance(t[3], Lazy) or t[3].oid not in full:
+            continue
+        X = canonical(ex, byoid, X)
+        if not (input_oids & P.of(X)):
+            continue
+        sides = [("leading_trivia", snap[1]), ("trailing_trivia", snap[2])] if last == "update_trivia" and len(snap) > 2 else \
+                [("leading_trivia" if "leading" in last else "trailing_trivia", snap[1])] if len(snap) > 1 else []
+        # the token and the tokens it is a formatted copy of; the containers it was taken from
+        equiv, conts, cur, steps = {X.oid}, set(), X, 0
+        while cur is not None and steps < 12:
+            steps += 1
+            root = cur.oid
+            while root in ex.parent:
+                root = ex.parent[root][0]
+                if root not in input_oids and root in byoid:
+                    conts.add(root)
+            if root in input_oids or root not in ex.havoc_calls:
+                break
+            nm, a = ex.havoc_calls[root]
+            srcs = [x_ for x_ in (deref_val(ex, o.state, y_) for y_ in ex.havoc_snap.get(root, a)) if isinstance(x_, Lazy)
+                    and not re.search(r"(Context|Shape|FormatTriviaType|Vec<.*>)$", x_.ty.strip())]
+            if not srcs:
+                break
+            c0 = srcs[0]
+            if c0.oid in input_oids:
+                break
+            if TOKEN_TY.search(c0.ty.strip()) and root == cur.oid:
+                equiv.add(canonical(ex, byoid, c0).oid)      # cur = f(ctx, c0, ..): a formatted copy of token c0
+            else:
+                conts.add(c0.oid)
+            cur = c0
+        for side, payload in sides:
+            pv = deref_val(ex, o.state, payload)
+            if not (isinstance(pv, Agg) and pv.variant == "Replace"):
+                continue
+            n_tok += 1
+            oid_ = f"replace/{fs}/{f.name}/path{pi}/call{ci}-{X.label[-30:]}/{side}"
+            reads = [r_ for e_ in equiv for r_ in triv.get(e_, {}).get("all:" + side, [])]
+            if any(r_.oid in full for r_ in reads):
+                rep.add(oid_, "unsat", "the replaced trivia is read and carried into the result", nontrivial=False)
+                continue
+            guards = []
+            for u in hv:
+                l2 = u[1].split("::")[-1]
+                if not isinstance(u[3], Sym) or not z3.is_bool(u[3].t):
+                    continue
+                sn2 = u[4] if len(u) > 4 else u[2]
+                if l2 in GUARDS and side in GUARDS[l2]:
+                    a0 = deref_val(ex, o.state, sn2[0])
+                    if isinstance(a0, Lazy):
+                        a0c = canonical(ex, byoid, a0)
+                        if a0c.oid in equiv or a0c.oid in conts or a0.oid in conts or (equiv & P.of(a0)):
+                            guards.append(u[3].t)
+                elif reads and l2 in ("any", "all", "is_some", "is_none", "is_empty") and any(r_.oid in P.of(x) for r_ in reads for x in sn2):
+                    guards.append(u[3].t if l2 in ("any", "is_some") else z3.Not(u[3].t))
+            bad = z3.And(*guards) if guards else z3.BoolVal(True)
+            if guards and not ses.reachable(list(o.pc) + [bad]):
+                rep.add(oid_, "unsat", "the trivia is replaced only on paths where its comment test is false")
+                continue
+            r, m = ses.obligation(oid_, list(o.pc), bad, "trivia that is replaced was read into the result or holds no comment")
+            if r == "sat":
+                flagged.append((oid_, f"{f.name}: the {side.replace('_', ' ')} of {X.label[-30:]} is replaced without its comments being carried over",
+                                "replace", {"function": f.name, "token": X.label[-30:], "side": side}))
+    return flagged, n_tok
+
+
+def replace_sites(ses, rep, fs):
+    """R for the formatter functions transplant() does not visit (helpers that take tokens and hand back tokens / tuples, e.g.
+    process_dot_name): every function of src/formatters whose MIR builds a FormatTriviaType::Replace"""
+    flagged = []
+    funcs = ses.mir("lib", fs)
+    visited = {f.name for f, rt, ai in c02.struct_functions(funcs, None, by_value=True)
+               if rt not in ("Shape", "Indent", "Token", "TokenReference", "String", "usize", "bool") and not SKIP.search(f.name)}
+    n = 0
+    for name, l in sorted(funcs.items()):
+        for f in l:
+            if f.kind != "fn" or f.name in visited or SKIP.search(f.name) or "FormatTriviaType::Replace" not in f.text \
+                    or not any(TOKEN_TY.search(t.strip()) or re.search(r"full_moon::|&(Expression|Stmt|Var|Suffix|Prefix)", t) for _, t in f.params):
+                continue
+            # helpers that compute a replacement trivia list from tokens (handle_field_key_equals_comments ..) are followed: the reads happen in there
+            ex = ses.executor("lib", fs, inline=lambda n_, fn, me=f: fn is not me and fn.kind == "fn" and "{closure" not in fn.name and "<impl" not in fn.name
+                              and fn.ret and "Vec<Token>" in fn.ret.replace("full_moon::tokenizer::", "") and len(fn.blocks) <= 60
+                              and fn.name.split("::")[-1] not in TRIVIA_READS)
+            ex.max_block_visits = 1
+            ex.inline_closure_calls = True
+            try:
+                args = lazy_args(ex, f)
+                outs = ex.run(f, args)
+            except Inconclusive as e:
+                rep.extra.setdefault("not_encoded", []).append(f"{f.name}: {str(e)[:60]}")
+                continue
+            inputs = {(a.v if isinstance(a, RefV) else a).oid for a in args if isinstance(a.v if isinstance(a, RefV) else a, Lazy)}
+            rep.fn(f)
+            n += 1
+            for pi, o in enumerate(outs):
+                if o.kind != "return":
+                    continue
+                P = c02.Prov(ex, o)
+                hv = [t for t in o.trace if t[0] == "havoc"]
+                for t in hv:
+                    for a in (t[4] if len(t) > 4 else t[2]):
+                        deref_val(ex, o.state, a)
+                byoid = {x.oid: x for x in ex.lazy_tab.values() if isinstance(x, Lazy)}
+                byoid.update({t[3].oid: t[3] for t in hv if isinstance(t[3], Lazy)})
+                triv = {}
+                for t in hv:
+                    last = t[1].split("::")[-1]
+                    if last in TRIVIA_READS and isinstance(t[3], Lazy):
+                        a0 = deref_val(ex, o.state, (t[4] if len(t) > 4 else t[2])[0])
+                        if isinstance(a0, Lazy) and TOKEN_TY.search(a0.ty.strip()):
+                            a0 = canonical(ex, byoid, a0)
+                            triv.setdefault(a0.oid, {}).setdefault(TRIVIA_READS[last], t[3])
+                            triv[a0.oid].setdefault("all:" + TRIVIA_READS[last], []).append(t[3])
+                    if last == "surrounding_trivia" and isinstance(t[3], Lazy):          # Node::surrounding_trivia(): (leading, trailing) of the node's outer tokens
+                        a0 = deref_val(ex, o.state, (t[4] if len(t) > 4 else t[2])[0])
+                        if isinstance(a0, Lazy) and TOKEN_TY.search(a0.ty.strip()):
+                            a0 = canonical(ex, byoid, a0)
+                            for side_ in TRIVIA:
+                                triv.setdefault(a0.oid, {}).setdefault(side_, t[3])
+                                triv[a0.oid].setdefault("all:" + side_, []).append(t[3])
+                full = P.of(o.value)
+                fl_, n_ = replace_obligations(ses, rep, ex, o, P, hv, byoid, triv, full, inputs, f, pi, fs)
+                flagged += fl_
+    rep.bounds[f"replace_helper_functions_{fs}"] = n
+    return flagged
+
+
+CLASS = {"Single": {"S"}, "Multiline": {"M"}, "All": {"S", "M"}}
+
+
+def comment_reads(ex, o, obj):
+    """[(side, classes, result)] : comment-list reads (`*_comments`, `*_comments_search(search)`) on `obj` along path o"""
+    out = []
+    for t in o.trace:
+        if t[0] != "havoc" or not isinstance(t[3], Lazy):
+            continue
+        last = t[1].split("::")[-1]
+        m = re.fullmatch(r"(leading|trailing)_comments(_search)?", last)
+        if not m:
+            continue
+        snap = t[4] if len(t) > 4 else t[2]
+        a0 = deref_val(ex, o.state, snap[0])
+        if a0 is not obj and not (isinstance(a0, Lazy) and isinstance(obj, Lazy) and a0.oid == obj.oid):
+            continue
+        cls = {"S", "M"}
+        if m.group(2) and len(snap) > 1:
+            sv = deref_val(ex, o.state, snap[1])
+            cls = CLASS.get(getattr(sv, "variant", None), {"S", "M"})
+        out.append((m.group(1), cls, t[3]))
+    return out
+
+
+def comment_partition(ses, rep, fs="full"):
+    """P2  a function that hands some of a node's comments to its caller (to be placed elsewhere) and passes the node on to a formatter that
+    keeps some of them in place: the two comment classes (single-line / block) are disjoint - otherwise a comment is emitted twice."""
+    flagged = []
+    funcs = ses.mir("lib", fs)
+    kept = {}
+
+    def kept_classes(g):
+        """per parameter index: classes of the comments of that parameter that g itself reads and puts back on its result"""
+        if g.name in kept:
+            return kept[g.name]
+        res = {}
+        ex = ses.executor("lib", fs, inline=lambda n_, fn: False)
+        ex.max_block_visits = 1
+        try:
+            args = lazy_args(ex, g)
+            outs = ex.run(g, args)
+        except Inconclusive:
+            kept[g.name] = res
+            return res
+        for o in outs:
+            if o.kind != "return":
+                continue
+            P = c02.Prov(ex, o)
+            full = P.of(o.value)
+            for i, a in enumerate(args):
+                obj = a.v if isinstance(a, RefV) else a
+                for side, cls, r_ in comment_reads(ex, o, obj):
+                    if r_.oid in full:
+                        res.setdefault((i, side), set()).update(cls)
+        kept[g.name] = res
+        return res
+    n = 0
+    for name, l in sorted(funcs.items()):
+        for f in l:
+            if f.kind != "fn" or SKIP.search(f.name) or not re.search(r"_comments(_search)?\b", f.text):
+                continue
+            ex = ses.executor("lib", fs, inline=lambda n_, fn: False)
+            ex.max_block_visits = 1
+            try:
+                args = lazy_args(ex, f)
+                outs = ex.run(f, args)
+            except Inconclusive:
+                continue
+            seen = set()
+            for pi, o in enumerate(outs):
+                if o.kind != "return":
+                    continue
+                P = c02.Prov(ex, o)
+                full = P.of(o.value)
+                objs = {}
+                for t in o.trace:
+                    if t[0] == "havoc":
+                        for a in (t[4] if len(t) > 4 else t[2]):
+                            v = deref_val(ex, o.state, a)
+                            if isinstance(v, Lazy):
+                                objs[v.oid] = v
+                for obj in objs.values():
+                    mine = [(side, cls) for side, cls, r_ in comment_reads(ex, o, obj) if r_.oid in full]
+                    if not mine:
+                        continue
+                    for t in o.trace:
+                        if t[0] != "havoc" or not isinstance(t[3], Lazy) or t[3].oid not in full:
+                            continue
+                        g = ex.resolve(t[1])
+                        if g is None or g is f or g.kind != "fn" or not g.name.split("::")[-1].startswith(("format_", "hang_")):
+                            continue
+                        snap = t[4] if len(t) > 4 else t[2]
+                        for i, a in enumerate(snap):
+                            v = deref_val(ex, o.state, a)
+                            if not (isinstance(v, Lazy) and v.oid == obj.oid):
+                                continue
+                            for (j, side2), cls2 in kept_classes(g).items():
+                                if j != i:
+                                    continue
+                                for side, cls in mine:
+                                    if side == side2 and (f.name, g.name, side) not in seen:
+                                        seen.add((f.name, g.name, side))
+                                        n += 1
+                                        oid = f"partition/{fs}/{f.name}/{g.name.split('::')[-1]}/{side}-comments-handed-on-vs-kept"
+                                        r, m = ses.obligation(oid, list(o.pc), z3.BoolVal(bool(cls & cls2)), "the comments a function relocates and the ones its callee keeps in place are different classes")
+                                        if r == "sat":
+                                            flagged.append((oid, f"{f.name} relocates the {sorted(cls)} {side} comments of a node that {g.name.split('::')[-1]} formats keeping its "
+                                                                 f"{sorted(cls2)} ones: the {sorted(cls & cls2)} comments come out twice", "partition", {"function": f.name}))
+    rep.bounds[f"comment_partition_pairs_{fs}"] = n
     return flagged
 
 
@@ -479,7 +662,8 @@ SCENARIOS = {
     "semicolon": ["local a = 1; -- c1\nlocal b = 2 --[[c2]] ; --[[c3]]\nf(); -- c4\n", "do local a = 1 --[[x]]; end\n", "return 1 --[[r]] ; -- tail\n", "local function f()\n\treturn list[1]\n\t--[==[ own line ]==]\n\t;\nend\n",
                   "while true do\n\tbreak\n\t--[[ b ]]\n\t;\nend\n", "local a = 1\n-- own\n;\nlocal b = 2\n"],
     "call-sugar": ["f( --[[a]] 'x' --[[b]] )\n", "f( --[[a]] { 1 } --[[b]] )\n", "f --[[a]] 'x' --[[b]]\n", "f --[[a]] { 1 } --[[b]]\n", "f( -- a\n'x')\n", "local y = f\n-- a\n('x')\n", "f('x'\n-- c\n)\n", "f({ 1 }\n-- c\n)\n"],
-    "table": ["local t = { -- a\n\t1, -- b\n\t2 --[[c]], --[[d]]\n\t-- e\n}\n", "local t = { --[[a]] 1 --[[b]], --[[c]] 2 --[[d]] }\n", "local t = { --[[only]] }\n"],
+    "table": ["local t = {\n\t[1] = \"one\" --[[ first ]],\n\t[\"two\"] = 2 --[==[ second ]==], -- after comma\n\tthree = 3 --[[ third ]],\n\t4 --[[ fourth ]],\n\t[last] = w --[=[ sixth ]=]\n}\n",
+              "local t = { -- a\n\t1, -- b\n\t2 --[[c]], --[[d]]\n\t-- e\n}\n", "local t = { --[[a]] 1 --[[b]], --[[c]] 2 --[[d]] }\n", "local t = { --[[only]] }\n"],
     "functions": ["local function f( --[[a]] x --[[b]], --[[c]] y --[[d]] ) --[[e]]\n\t-- body\nend -- tail\n", "call( --[[a]] 1, --[[b]] 2 --[[c]] )\n",
                   "local f = function( --[[p]] ) --[[q]] end\n"],
     "binops": ["local x = a --[[1]] + --[[2]] b --[[3]]\n", "local x = a -- one\n\t+ b -- two\n\t+ c\n", "local x = - --[[u]] a\n", "local x = not --[[n]] a\n"],
@@ -489,7 +673,8 @@ SCENARIOS = {
                    "while --[[a]] x --[[b]] do --[[c]]\nend\nrepeat --[[d]]\nuntil --[[e]] x --[[f]]\n", "return --[[a]] 1 --[[b]] , --[[c]] 2 --[[d]]\n",
                    "function --[[a]] t --[[b]] . --[[c]] f --[[d]] : --[[e]] m --[[f]] ( --[[g]] ) --[[h]]\nend\n",
                    "goto_label = 1 -- c\n-- only comment at end\n"],
-    "index": ["x = a --[[1]] . --[[2]] b --[[3]] [ --[[4]] 1 --[[5]] ] --[[6]]\n", "x = a --[[1]] : --[[2]] m --[[3]] ( --[[4]] ) --[[5]]\n"],
+    "index": ["local x = foo\n  -- before dot\n  . --[[ between ]] bar\nobj:first()\n  -- before colon\n  : --[==[ level two ]==] second()\n  :third() -- end\n",
+              "x = a --[[1]] . --[[2]] b --[[3]] [ --[[4]] 1 --[[5]] ] --[[6]]\n", "x = a --[[1]] : --[[2]] m --[[3]] ( --[[4]] ) --[[5]]\n"],
 }
 SCENARIOS["collapse"] = ["if x then -- c\n\treturn\nend\n", "if x then --[[b]] return end\n", "if x then\n\treturn -- c\nend\n", "if x then\n\tf() -- c\nend\n",
                          "local f = function() -- c\n\treturn 1\nend\n", "local f = function()\n\treturn 1\n\t-- c\nend\n", "local f = function(a -- c\n)\n\treturn 1\nend\n",
@@ -506,7 +691,7 @@ SCENARIOS["trivia-lists"] = ["--[[ a ]]--[[ b ]]\nlocal M = {}\n", "--[=[a]=]-- 
                              "-- one\n-- two\n\n\n-- three\nlocal q = 1 -- four\n", "#!/usr/bin/lua\n-- after shebang\nlocal s = 1\n"]
 FUNC2SCEN = {"load_token_trivia": ["trivia-lists"], "format_expression_internal": ["paren-removal", "binops"], "format_hanging_expression_": ["paren-removal", "binops"], "format_function_args": ["call-sugar", "functions"], "format_block": ["semicolon", "statements"],
              "format_if": ["condition", "statements"], "is_if_guard": ["collapse"], "format_type_declaration": ["luau-type-declaration"], "should_collapse_function_body": ["collapse"], "format_while_block": ["condition", "statements"], "format_repeat_block": ["condition", "statements"],
-             "format_table_constructor": ["table"], "format_index": ["index"], "remove_condition_parentheses": ["condition"]}
+             "format_table_constructor": ["table"], "format_index": ["index"], "process_dot_name": ["index"], "format_field": ["table"], "remove_condition_parentheses": ["condition"]}
 
 
 GENERIC_GROUPS = ("statements", "functions", "table", "index", "binops", "semicolon", "corpus", "luau-types", "luau-type-declaration")
@@ -550,6 +735,8 @@ def run(ses, rep):
     flagged += transplant(ses, rep, "full")
     if rep.tier != "quick":
         flagged += transplant(ses, rep, "default")
+    flagged += replace_sites(ses, rep, "full")
+    flagged += comment_partition(ses, rep, "full")
     flagged += load_step(ses, rep)
     flagged += token_reference(ses, rep)
     flagged += collapse_guards(ses, rep)
